@@ -226,3 +226,20 @@ P("C14",
   units=[
    U("c14.spec", "c14", "TestSpec", "Write/partial update/reopen/Read == model for every field", Q(6000, 4), T(600000), min_nontrivial_frac=0.4),
   ])
+
+P("C17",
+  level_text="Bounded random exploration at component level: (a) the resource manager under generated request / release / cancel / stats histories over several keys with "
+             "limits from 1 unit, against a counting model: never more than the limit reserved, what the manager reports equals what callers hold whenever it is quiet, a "
+             "reservation granted after its cancellation is accounted for, and everything released brings it back to zero (its own panics on over-release/over-grant kill the shard "
+             "and are reported with the journaled case); (b) the read cache under get / clear / expiry histories with value sizes around the capacity: size within [0, max], "
+             "values equal to what the loader produced for that key, clear empties it, close with expiries in flight does not crash.",
+  level_note="Trusted: the counting model. Which queued request is granted next is the manager's free (random) choice and is not asserted. Session-level limits (connections, "
+             "request queues, rate limits, web-seed caps) are decided by the session unit when listed.",
+  technique="property-based testing (rapid): model-based stateful testing of the managers",
+  rule="(a) 1..40 ops, limit 1..16, request sizes incl. 0, limit, limit+1, negative; non-trivial = a request was queued and later notified or cancelled. "
+       "(b) 1..40 ops, capacity 0..1000, TTL 1 ms or 1 min; non-trivial = a cache hit, an expiry window or a clear occurred",
+  assumptions=["callers release exactly what they were granted (the real callers' protocol)"],
+  units=[
+   U("c17.resourcemanager", "c17", "TestResourceManager", "resource manager vs counting model", Q(20000, 4), T(2000000), min_nontrivial_frac=0.2, env={"VERIF_JOURNAL": "1"}),
+   U("c17.piececache", "c17", "TestPieceCache", "read cache: bounded size, loader values, clear/expiry", Q(2400, 8), T(200000), min_nontrivial_frac=0.3, env={"VERIF_JOURNAL": "1"}),
+  ])
